@@ -71,8 +71,12 @@ def Verdict.diff (v : Verdict) (op : Nat) (field : String) (model impl : Json) (
   { v with diffs := v.diffs.push (Json.mkObj [("op", op), ("field", field), ("model", model), ("impl", impl),
       ("props", Json.arr (props.map Json.str).toArray)]) }
 
-def Verdict.mon (v : Verdict) (prop : String) (clause : String) (op : Nat) (detail : String := "") : Verdict :=
-  { v with monitor := v.monitor.push (Json.mkObj [("prop", prop), ("clause", clause), ("op", op), ("detail", detail)]) }
+def Verdict.mon (v : Verdict) (prop : String) (clause : String) (op : Nat) (detail : String := "")
+    (known : String := "") : Verdict :=
+  let base := [("prop", Json.str prop), ("clause", Json.str clause), ("op", toJson op), ("detail", Json.str detail)]
+  let fields := if known == "" then base else base ++ [("known", Json.str known)]
+  { v with monitor := v.monitor.push (Json.mkObj fields),
+           known := if known == "" || v.known.contains known then v.known else v.known.push known }
 
 def Verdict.br (v : Verdict) (b : String) : Verdict :=
   if v.branches.contains b then v else { v with branches := v.branches.push b }
